@@ -309,6 +309,80 @@ def band_functions(ctx, chk):
                     chk.violation("R16.2", q, "band:" + k, show(g, 200) if g is not None else "unset", show(w, 200), ctx.where(q))
 
 
+def extra_point_counts(ctx, chk):
+    """R16.9 every count handed to np.linspace for the extra support points is non-negative for each documented nb_points >= 0
+    (whatever value roc_with_ci derives nb_extra_points from)."""
+    from . import c15
+    ev = ctx.ev
+    NBP = Sym("nb_points", ("int", "param", "notnone"))
+    caps = []
+
+    def st_support(ev_, fi, bound):
+        caps.append(bound.get("nb_extra_points"))
+        return Sym("THR", ("array", "notnone"))
+
+    def st_bci(ev_, fi, bound):
+        return Sym("JOINT", ("array", "notnone"))
+    q = RC + "roc_with_ci"
+    ev.stubs[RC + "_find_support_thresholds"] = st_support
+    ev.stubs[SCORES + ".bootstrap_ci"] = st_bci
+    try:
+        for kw in ({"fnr": c15.F}, {"thresholds": c15.TH}, {}):
+            c15.with_stubs(ctx, lambda: ctx.explore(lambda: ev.call(ctx.fn(q), [ctx.scores_obj("pos", "pos")], dict(kw, nb_points=NBP)), chk))
+    except Exception as e:  # noqa: BLE001
+        chk.unknown("R16.9", "roc_with_ci not explorable with symbolic nb_points: %s" % str(e)[:120])
+        return
+    finally:
+        ev.stubs.pop(RC + "_find_support_thresholds", None)
+        ev.stubs.pop(SCORES + ".bootstrap_ci", None)
+    extras = {}
+    for e in caps:
+        if hasattr(e, "key"):
+            extras[e.key] = e
+    if not extras:
+        chk.unknown("R16.9", "nb_extra_points handed to the support-point helper not observed")
+        return
+    f = ctx.fn(RC + "_find_support_thresholds")
+    n_lin = 0
+    for E in extras.values():
+        args = {"fnr": c15.F, "fpr": Const(None), "thresholds": Const(None), "nb_points": NBP, "nb_extra_points": E, "x_axis": Const("fnr")}
+        outs = c15.with_stubs(ctx, lambda: ctx.explore(lambda: ev.call(f, [ctx.scores_obj("pos", "pos")], dict(args)), chk))
+        nums = {}
+        for o in outs:
+            terms = [o.value] if hasattr(o.value, "key") else []
+            terms += [c for c, _t in o.pc]
+            for t_ in terms:
+                for a in atoms_of(t_):
+                    if isinstance(a, App) and a.fn == "linspace":
+                        num = a.kwd("num") if a.kwd("num") is not None else (a.args[2] if len(a.args) > 2 else None)
+                        if num is not None:
+                            nums[num.key] = num
+        for num in nums.values():
+            n_lin += 1
+            syms = [a for a in atoms_of(num) if isinstance(a, Sym)]
+            lens = {a: Fraction(3) for a in atoms_of(num) if isinstance(a, App) and a.fn == "len" and a.args[0] in (c15.F, c15.P, c15.TH)}
+            if any(a != NBP and a not in (c15.F, c15.P, c15.TH) for a in syms):
+                continue
+            bad = None
+            try:
+                for k in (0, 1, 2, 3, 4, 5, 6, 7, 10, 100):
+                    env_ = dict(lens)
+                    env_[NBP] = Fraction(k)
+                    v = evaluate(num, env_)
+                    if v < 0 and bad is None:
+                        bad = (k, v)
+            except CannotEvaluate:
+                continue
+            inst = "linspace-count:%s" % show(num, 60)
+            if bad:
+                chk.violation("R16.9", q, inst, "np.linspace(num=%s) is %s for nb_points=%d (numpy raises ValueError for a negative count)" % (show(num, 80), bad[1], bad[0]),
+                              "a non-negative number of extra points for every nb_points >= 0 the caller may pass with supplied support points", ctx.where(q))
+            else:
+                chk.hold("R16.9", inst, "count %s is non-negative for nb_points in {0..7, 10, 100}" % show(num, 60), nontrivial=bool(syms))
+    if n_lin == 0:
+        chk.unknown("R16.9", "no linspace count observed in the support-point helper")
+
+
 def callee_preconditions(ctx, chk):
     """R16.8 argument checks of utils.bootstrap_ci accept what its callers pass: every raise path of the callee whose condition
     only constrains `alpha` is evaluated at each call site's alpha expression (in terms of the caller's own alpha in (0,1))."""
@@ -424,6 +498,7 @@ def run(ctx, chk, tier):
     aggregate(ctx, chk)
     band_functions(ctx, chk)
     callee_preconditions(ctx, chk)
+    extra_point_counts(ctx, chk)
     from . import c15, c11
     # every built-in sampler delivers at least one scored positive and negative (the band functions set thresholds at FNR/FPR on each replicate)
     c11.sample_wellformed(ctx, chk)
